@@ -22,9 +22,9 @@ const LITERALS: [&str; 38] = [
     "'abc'", "'\\0'", "'\\255'", "'1e'", "3",
 ];
 /// opaque leaves
-const OPAQUE: [&str; 9] = ["x", "t.f", "t[k]", "f()", "...", "(f())", "{}", "function() end", "(...)"];
+const OPAQUE: [&str; 10] = ["x", "t.f", "t[k]", "f()", "...", "(f())", "{}", "function() end", "(...)", "{f()}"];
 
-const SMALL: [&str; 8] = ["nil", "false", "1", "'a'", "'10'", "x", "f()", "(0/0)"];
+const SMALL: [&str; 9] = ["nil", "false", "1", "'a'", "'10'", "x", "f()", "(0/0)", "{f()}"];
 
 const BINOPS: [&str; 15] = ["+", "-", "*", "/", "%", "^", "..", "==", "~=", "<", "<=", ">", ">=", "and", "or"];
 const UNOPS: [&str; 3] = ["-", "not ", "#"];
@@ -422,11 +422,11 @@ impl Monitor for C08 {
                 }
                 Err((sig, detail)) => return Verdict::Violated { signature: sig, detail, narrowed: Some(json!({"kind": "list", "exprs": [e]})) },
             }
-            // end to end through compute_expression (closed expressions only)
-            if !uses_opaque(&e) {
-                if let Err((sig, detail)) = end_to_end(&e, cov) {
-                    return Verdict::Violated { signature: sig, detail, narrowed: Some(json!({"kind": "list", "exprs": [e]})) };
-                }
+            // end to end through compute_expression: closed expressions as they are, expressions with opaque leaves in
+            // every environment (when the rule rewrites them at all)
+            let r = if !uses_opaque(&e) { end_to_end(&e, cov) } else { end_to_end_opaque(&e, cov) };
+            if let Err((sig, detail)) = r {
+                return Verdict::Violated { signature: sig, detail, narrowed: Some(json!({"kind": "list", "exprs": [e]})) };
             }
         }
         Verdict::Held
@@ -561,6 +561,36 @@ fn shape(e: &Expr) -> String {
 }
 
 /// fold the closed expression with compute_expression and execute both programs
+fn end_to_end_opaque(expr: &str, cov: &mut Cov) -> Result<(), (String, String)> {
+    let plain = format!("return {}", expr);
+    match dl::process_one(&plain, "{ rules: ['compute_expression'] }") {
+        Ok(o) if o != plain => {}
+        _ => return Ok(()),
+    }
+    cov.hit("end_to_end:folded_with_opaque_leaves");
+    for env in ENVS.iter() {
+        // (the value is taken in a single-value position: what `true and f()` does to the number of values in a tail
+        // position is a listed finding of C01/C16)
+        let src = format!("{}\nlocal function body(...) local v = {} return v end\nreturn body({})", env.1, expr, env.2);
+        let Ok(out) = dl::process_one(&src, "{ rules: ['compute_expression'] }") else { continue };
+        if out == src {
+            continue;
+        }
+        let opts = super::exec::ExecOpts { both_dialects: false, universal: false, fuel: 20_000, model: super::exec::Model::None };
+        if let super::exec::Cmp::Differ { kind, detail } = super::exec::compare(&src, &out, &opts) {
+            // accept when the two agree under the other dialect's semantics (dialect-dependent operators)
+            let l51 = crate::reflua::run_source(&src, Dialect::L51, 20_000, false).ok().map(|o| (format!("{:?}", o.status), o.log));
+            let l51b = crate::reflua::run_source(&out, Dialect::L51, 20_000, false).ok().map(|o| (format!("{:?}", o.status), o.log));
+            if l51.is_some() && l51 == l51b {
+                cov.hit("accepted:fold-agrees-under-lua51-semantics");
+                continue;
+            }
+            return Err((format!("fold:{}", kind), format!("compute_expression rewrites `{}` (environment `{}`):\n--- input\n{}\n--- output\n{}\n{}", expr, env.0, src, out.trim(), detail)));
+        }
+    }
+    Ok(())
+}
+
 fn end_to_end(expr: &str, cov: &mut Cov) -> Result<(), (String, String)> {
     let src = format!("return {}", expr);
     let out = match dl::process_one(&src, "{ rules: ['compute_expression'] }") {
